@@ -137,6 +137,37 @@ example :
     (∀ c ∈ [1, 2, 3, 4, 5], Hier.lastOp c [(1, 2), (2, 3), (1, 4), (1, 5), (1, 3)] none =
       Hier.lastOp c [(1, 5), (2, 3), (1, 3), (1, 4), (1, 2)] none) := by decide
 
+/-- **what a peer really carries out**: local `set_parent`s (one unguarded `add_child`) mixed with handled
+`EntityParented` messages (`set_parent; add_child` only when the link differs — the guard is one of `C05_code_tie`'s
+facts). Whatever the mix and the order, the hierarchy stays well formed, and two peers whose histories agree on the last
+operation per child — what one did locally the other handled as a message — end with the same links, every child
+exactly once under its parent and nowhere else. -/
+theorem C05_mixed_history_wf (h : Hier.H) (ops : List (Bool × Nat × Nat)) (hw : Hier.WF h) :
+    Hier.WF (Hier.runOps h ops) :=
+  Hier.runOps_wf h ops hw
+
+theorem C05_mixed_histories_same_links (h1 h2 : Hier.H) (ops1 ops2 : List (Bool × Nat × Nat))
+    (hw1 : Hier.WF h1) (hw2 : Hier.WF h2) (hp : ∀ c, h1.par c = h2.par c)
+    (hl : ∀ c, Hier.lastOp c (ops1.map (·.2)) none = Hier.lastOp c (ops2.map (·.2)) none) :
+    (∀ c, (Hier.runOps h1 ops1).par c = (Hier.runOps h2 ops2).par c) ∧
+    ∀ c q, ((Hier.runOps h1 ops1).ch q).count c = ((Hier.runOps h2 ops2).ch q).count c ∧
+      ((Hier.runOps h1 ops1).ch q).count c = if (Hier.runOps h1 ops1).par c = some q then 1 else 0 :=
+  Hier.runOps_agree h1 h2 ops1 ops2 hw1 hw2 hp hl
+
+/-- a message delivered twice (the relay's echo, a snapshot pair repeating a live message) changes nothing the second
+time: the guard leaves `Parent` untouched, so no `Changed<Parent>` and no further announcement -/
+theorem C05_repeated_message_is_noop (h : Hier.H) (p c : Nat) :
+    Hier.handle (Hier.handle h p c) p c = Hier.handle h p c :=
+  Hier.handle_idem h p c
+
+/-- non-vacuity: the writer's local operations against the reader's handled messages, children in another order, one
+message repeated -/
+example :
+    let a := Hier.runOps Hier.empty [(false, 1, 2), (false, 2, 3), (false, 1, 3), (false, 1, 2)]
+    let b := Hier.runOps Hier.empty [(true, 2, 3), (true, 1, 2), (true, 1, 3), (true, 1, 3), (true, 1, 2)]
+    a.ch 1 = [3, 2] ∧ b.ch 1 = [2, 3] ∧ a.par 2 = some 1 ∧ b.par 2 = some 1 ∧ a.par 3 = some 1 ∧ b.par 3 = some 1 ∧
+    a.ch 2 = [] ∧ b.ch 2 = [] := by decide
+
 /-- (tie) hierarchies in the joining snapshot: parent pairs are listed after every entity, for pairs of tracked entities only,
 and the joiner drops a pair only when it does not know one of the two -/
 theorem C05_snapshot_links_tie :
